@@ -39,6 +39,8 @@ Fixpoint str_eqb (a b:str) : bool :=
 Fixpoint prefixb (p l:str) : bool :=       (* strncmp(l, p, strlen p) == 0 *)
   match p, l with [] , _ => true | x :: p', y :: l' => (x =? y) && prefixb p' l' | _ :: _, [] => false end.
 
+Definition hd_is (c:Z) (l:str) : bool := match l with x :: _ => x =? c | [] => false end.
+
 Definition s_MSNG : str := [77;83;78;71].
 
 (* ------------------------------------------------------------------ decimal integers *)
@@ -58,11 +60,9 @@ Definition desc6 (d:Z) : str := fixed_digits (Nat.max 6 (ndigits d)) d.
 (* atoi / atol: leading white space, optional sign, digits; anything else ends the number *)
 Definition atoi (l:str) : Z :=
   let l1 := dropwhile is_space l in
-  match l1 with
-  | 45 :: t => - parse_digits (takewhile is_digit t)
-  | 43 :: t => parse_digits (takewhile is_digit t)
-  | _ => parse_digits (takewhile is_digit l1)
-  end.
+  if hd_is 45 l1 then - parse_digits (takewhile is_digit (tl l1))
+  else if hd_is 43 l1 then parse_digits (takewhile is_digit (tl l1))
+  else parse_digits (takewhile is_digit l1).
 
 (* hexadecimal, '%llx' *)
 Definition hex_chr (d:Z) : Z := if d <? 10 then d + 48 else d + 87.
@@ -78,11 +78,7 @@ Fixpoint parse_hex_acc (a:Z) (l:str) : Z :=          (* stops at the first non-h
   match l with [] => a | c :: t => match hex_val c with Some d => parse_hex_acc (16 * a + d) t | None => a end end.
 (* sscanf('%llx'): optional 0x / 0X prefix *)
 Definition scan_hex (l:str) : Z :=
-  match l with
-  | 48 :: 120 :: t => parse_hex_acc 0 t
-  | 48 :: 88 :: t => parse_hex_acc 0 t
-  | _ => parse_hex_acc 0 l
-  end.
+  if hd_is 48 l && (hd_is 120 (tl l) || hd_is 88 (tl l)) then parse_hex_acc 0 (tl (tl l)) else parse_hex_acc 0 l.
 
 (* ------------------------------------------------------------------ (a) scaled numeric values *)
 (* bufr_print_scaled_value on the element whose exact value is n / 10^s  (n = raw + reference, s = scale in force):
@@ -96,20 +92,21 @@ Definition print_scaled (n s:Z) : str :=
 
 (* the decimal numeral strtod receives: optional '-', digits, optional '.' digits -> (mantissa, exponent of ten) *)
 Definition parse_decimal (l:str) : option (Z * Z) :=
-  let neg := match l with 45 :: _ => true | _ => false end in
-  let r := match l with 45 :: t => t | _ => l end in
+  let neg := hd_is 45 l in
+  let r := if neg then tl l else l in
   let ip := takewhile is_digit r in
   let r1 := dropwhile is_digit r in
   let sgn := if neg then -1 else 1 in
   match r1 with
   | [] => match ip with [] => None | _ => Some (sgn * parse_digits ip, 0) end
-  | 46 :: r2 =>
-      let fp := takewhile is_digit r2 in
-      match dropwhile is_digit r2, ip ++ fp with
-      | [], _ :: _ => Some (sgn * parse_digits (ip ++ fp), - Z.of_nat (length fp))
-      | _, _ => None
-      end
-  | _ => None
+  | c :: r2 =>
+      if c =? 46 then
+        let fp := takewhile is_digit r2 in
+        match dropwhile is_digit r2, ip ++ fp with
+        | [], _ :: _ => Some (sgn * parse_digits (ip ++ fp), - Z.of_nat (length fp))
+        | _, _ => None
+        end
+      else None
   end.
 
 (* exact re-quantisation of the decimal m * 10^e at scale s, reference ref: round(m*10^(e+s)) - ref, ties away from 0 *)
@@ -121,10 +118,8 @@ Definition requant (me:Z*Z) (s ref:Z) : Z := scaled_int (fst me) (snd me) s - re
 
 (* str_trimchar(str,'0') as used by bufr_print_double / bufr_print_float when bufr_is_trimzero() *)
 Definition trim_zeros (l:str) : str :=
-  match dropwhile (fun c => c =? 48) (rev l) with
-  | 46 :: r => rev r
-  | r => rev r
-  end.
+  let r := dropwhile (fun c => c =? 48) (rev l) in
+  if hd_is 46 r then rev (tl r) else rev r.
 
 (* ------------------------------------------------------------------ (b) flag tables in binary *)
 Fixpoint bits_msb (k:nat) (v:Z) : str :=
@@ -201,13 +196,11 @@ Fixpoint skip_groups (fuel:nat) (l:str) : str :=
   match fuel with
   | O => l
   | S f =>
-    match l with
-    | 123 :: _ =>
+    if hd_is 123 l then
       let r := dropwhile (fun c => negb (c =? c_rbrace)) l in
-      let r1 := match r with 125 :: t => t | _ => r end in
+      let r1 := if hd_is 125 r then tl r else r in
       skip_groups f (dropwhile is_space r1)
-    | _ => l
-    end
+    else l
   end.
 Definition skip_meta (fix_meta:bool) (l:str) : str :=
   if fix_meta then skip_groups (length l) l
@@ -222,10 +215,8 @@ Definition load_token (fix_q:bool) (vt:vtype) (quoted:bool) (tok:str) : tokval :
   | VT_INT flag =>
       if str_eqb tok s_MSNG then TV_missing
       else if flag && str_is_binary tok then TV_int (binary_to_int tok)
-      else match tok with
-           | 105 :: _ | 111 :: _ | 120 :: _ | 98 :: _ => TV_unmodelled
-           | _ => TV_int (atoi tok)
-           end
+      else if hd_is 105 tok || hd_is 111 tok || hd_is 120 tok || hd_is 98 tok then TV_unmodelled
+      else TV_int (atoi tok)
   | VT_F64 =>
       if str_eqb tok s_MSNG then TV_missing
       else match parse_decimal tok with Some (m, e) => TV_dec m e | None => TV_unmodelled end
@@ -235,35 +226,31 @@ Definition load_rest (fix_meta fix_q:bool) (vt:vtype) (rest:str) : lval :=
   let r1 := rstrip (c_string rest) in
   let r2 := dropwhile is_space r1 in
   (* meta *)
-  let r3 := match r2 with 123 :: _ => skip_meta fix_meta r2 | _ => r1 end in
+  let r3 := if hd_is 123 r2 then skip_meta fix_meta r2 else r1 in
   let sp := (length r3 - length (dropwhile is_space r3))%nat in
   let r4 := dropwhile is_space r3 in
   (* associated field *)
   let '(af, r5, crash) :=
-    match r4 with
-    | 40 :: _ =>
+    if hd_is 40 r4 then
         match strtok d_af r3 with
         | None => (None, r4, true)
         | Some (tok, p) =>
             let q := dropwhile (fun c => negb (c =? c_rpar)) (skipn sp p) in
-            let q1 := match q with 41 :: t => t | _ => q end in
+            let q1 := if hd_is 41 q then tl q else q in
             (Some (scan_hex tok), dropwhile is_space q1, false)
         end
-    | _ => (None, r4, false)
-    end in
+    else (None, r4, false) in
   if crash then mkLV None TV_crash else
-  match r5 with
-  | 34 :: t =>
-      match strtok d_nlcr t with
+  if hd_is 34 r5 then
+      match strtok d_nlcr (tl r5) with
       | None => mkLV af TV_crash
       | Some (tok, _) => mkLV af (load_token fix_q vt true (cut_closing_quote tok))
       end
-  | _ =>
+  else
       match strtok d_value r5 with
       | None => mkLV af TV_none
       | Some (tok, _) => mkLV af (load_token fix_q vt false tok)
-      end
-  end.
+      end.
 
 (* ------------------------------------------------------------------ lines *)
 Inductive line :=
@@ -273,17 +260,13 @@ Definition s_BUFR_EDITION_EQ : str := [66;85;70;82;95;69;68;73;84;73;79;78;61]. 
 Definition s_DATASUBSET : str := [68;65;84;65;83;85;66;83;69;84].                    (* 'DATASUBSET' *)
 Definition classify (l:str) : line :=
   let l := c_string l in
-  match l with
-  | 35 :: _ => L_comment
-  | 42 :: _ => L_comment
-  | _ =>
-    if prefixb s_BUFR_EDITION_EQ l then L_edition
-    else if prefixb s_DATASUBSET l then L_subset
-    else match strtok d_first l with
-         | None => L_blank
-         | Some (tok, rest) => L_data (atoi tok) rest
-         end
-  end.
+  if hd_is 35 l || hd_is 42 l then L_comment
+  else if prefixb s_BUFR_EDITION_EQ l then L_edition
+  else if prefixb s_DATASUBSET l then L_subset
+  else match strtok d_first l with
+       | None => L_blank
+       | Some (tok, rest) => L_data (atoi tok) rest
+       end.
 
 (* ------------------------------------------------------------------ the printer *)
 Inductive dvalue :=
@@ -415,23 +398,19 @@ Fixpoint find_key (keys:list str) (i:nat) (l:str) : option (nat * str) :=
 Inductive hline := H_comment | H_key (k:nat) (v:option Z) | H_hstring (s:str) | H_subset | H_other.
 (* HEADER_STRING: between the first ''' after the key and the last ''' of the line (or the whole rest of the line) *)
 Definition header_string_of (r:str) : str :=
-  match dropwhile (fun c => negb (c =? c_quote)) r with
-  | 34 :: t => match before_last c_quote t with Some s => s | None => t end
-  | _ => match strtok (fun c => (c =? 61) || (c =? 9) || (c =? 10)) r with Some (tok, _) => tok | None => [] end
-  end.
+  let r' := dropwhile (fun c => negb (c =? c_quote)) r in
+  if hd_is 34 r' then (match before_last c_quote (tl r') with Some s => s | None => tl r' end)
+  else match strtok (fun c => (c =? 61) || (c =? 9) || (c =? 10)) r with Some (tok, _) => tok | None => [] end.
 Definition classify_hdr (l:str) : hline :=
   let l := c_string l in
-  match l with
-  | 35 :: _ => H_comment
-  | 42 :: _ => H_comment
-  | _ =>
+  if hd_is 35 l || hd_is 42 l then H_comment
+  else
     match find_key hdr_keys 0 l with
     | Some (k, r) =>
         if (k =? K_HEADER_STRING)%nat then H_hstring (header_string_of r)
         else H_key k (match strtok d_hdr r with Some (tok, _) => Some (atoi tok) | None => None end)
     | None => if prefixb (firstn 9 s_DATASUBSET) l then H_subset else H_other
-    end
-  end.
+    end.
 
 (* Section 1 / Section 3 fields of a dataset as the loader keeps them: the 16 integer keys 1..16 (index = key number)
    and the header string.  hdr_set k v h: assign; DATA_FLAG assigns, COMPRESSED ors bit 64 in. *)
